@@ -47,12 +47,45 @@ func blank(ev string) tEvent {
 	return tEvent{Ev: ev, Pts: [][]int{}, P: []int{}, Q: []int{}, Res: [][]int{}, Cd: []int{}, Nodes: []tNode{}, Lo: []int{}, Hi: []int{}}
 }
 
+// traceFar: the trace being recorded uses the far coordinate codes of SpatialIndex.tla (Far = TRUE; one
+// recording per process).  The log then holds CODES: a coordinate code a stands for a (|a| <= 8),
+// sgn(a)(|a|-8) 2^500 (9..15), sgn(a)(|a|-16) 2^600 (17..23); a squared distance v, v 2^1000 or +Inf is
+// logged as v, 4096 + v, 8192.  The functions below only translate between codes and float64 values.
+var traceFar bool
+
+var traceCoder = coder{far: []int{0, 500, 600}, db: 4096}
+
 func toInts(f []float64) []int {
 	r := make([]int, len(f))
 	for i, v := range f {
-		r[i] = int(v)
+		if traceFar {
+			r[i] = coordCode(v)
+		} else {
+			r[i] = int(v)
+		}
 	}
 	return r
+}
+
+// coordCode is the inverse of coder.coord on the values that have a code.
+func coordCode(v float64) int {
+	a, sg := math.Abs(v), 1
+	if v < 0 {
+		sg = -1
+	}
+	if a <= 8 && a == math.Trunc(a) {
+		return int(v)
+	}
+	for lev, base := range []int{0, 8, 16} {
+		if lev == 0 {
+			continue
+		}
+		m := math.Ldexp(a, -traceCoder.far[lev])
+		if m == math.Trunc(m) && m >= 1 && m <= 7 {
+			return sg * (base + int(m))
+		}
+	}
+	panic("harness: a coordinate without a far code came back from the tree")
 }
 
 func toFloats(c []int) []float64 { return []float64(toPoint(c)) }
@@ -60,18 +93,45 @@ func toFloats(c []int) []float64 { return []float64(toPoint(c)) }
 func toPoint(c []int) kdtree.Point {
 	p := make(kdtree.Point, len(c))
 	for i, v := range c {
-		p[i] = float64(v)
+		if traceFar {
+			p[i] = traceCoder.coord(int64(v))
+		} else {
+			p[i] = float64(v)
+		}
 	}
 	return p
 }
 
 // exactInt converts a distance reported by kdtree to an integer; a value that
 // is not an exact small integer is logged as -1 (no lattice distance is negative).
+// With far codes: v < 4096 -> v, v 2^1000 -> 4096 + v, +Inf -> 8192, anything else -1.
 func exactInt(d float64) int {
+	if traceFar {
+		db := float64(traceCoder.db)
+		switch {
+		case math.IsInf(d, 1):
+			return int(2 * traceCoder.db)
+		case d >= 0 && d < db && d == math.Trunc(d):
+			return int(d)
+		}
+		m := math.Ldexp(d, -2*traceCoder.far[1])
+		if m == math.Trunc(m) && m >= 1 && m < db {
+			return int(traceCoder.db) + int(m)
+		}
+		return -1
+	}
 	if d != math.Trunc(d) || d < 0 || d > 1e9 {
 		return -1
 	}
 	return int(d)
+}
+
+// radius2 decodes a logged squared radius.
+func radius2(r2 int) float64 {
+	if traceFar {
+		return traceCoder.dist2(int64(r2))
+	}
+	return float64(r2)
 }
 
 // recordIndexTrace: args runs=N maxn=N queries=N
@@ -88,6 +148,10 @@ func recordIndexTrace(out *core.Out, args []string, seed int64, sum *core.Summar
 	maxn := atoi(am["maxn"], 2000)
 	nq := atoi(am["queries"], 12)
 	boxOnly := am["boxes"] == "only" // only build / insert / dobounded events (kdtree.DoBounded), else none of the latter
+	// far=1: far coordinate codes (SpatialIndex.tla, Far = TRUE).  Runs alternate between "all coordinates finite
+	// multiples of 1 and 2^500" (every distance finite: the vp-tree takes part) and "some coordinates +-2^600"
+	// (squared distances overflow to +Inf: k-d tree only, the vp-tree's documentation excludes such point sets).
+	traceFar = am["far"] == "1"
 	rng := rand.New(rand.NewPCG(uint64(seed), 77+uint64(len(am["salt"]))*1000+uint64(atoi(am["runs"], 0))))
 	if am["salt"] == "b" {
 		rng = rand.New(rand.NewPCG(uint64(seed)+0x9e3779b9, 78))
@@ -100,6 +164,18 @@ func recordIndexTrace(out *core.Out, args []string, seed int64, sum *core.Summar
 		sum.Count("runs_"+kinds[(run+koff)%len(kinds)], 1)
 		dim := 1 + run%6
 		span := []int{2, 4, 15, 40}[rng.IntN(4)] // coordinates 0,2,..,2*span
+		maxLev := 1 + run%2
+		if traceFar {
+			span = []int{1, 2, 3}[rng.IntN(3)] // level 0 coordinates 0,2,..,2*span <= 6, queries -1..7
+		}
+		// one coordinate code of a far level (1: +-1..3 times 2^500, 2: +-1..2 times 2^600)
+		farCoord := func() int {
+			sg := 1 - 2*rng.IntN(2)
+			if maxLev == 2 && rng.IntN(3) == 0 {
+				return sg * (17 + rng.IntN(2))
+			}
+			return sg * (9 + rng.IntN(3))
+		}
 		sizes := []int{0, 1, 2, 7, 60, 400, maxn}
 		nb := sizes[rng.IntN(len(sizes))]
 		if run == 0 {
@@ -116,6 +192,9 @@ func recordIndexTrace(out *core.Out, args []string, seed int64, sum *core.Summar
 			p := make([]int, dim)
 			for i := range p {
 				p[i] = 2 * rng.IntN(span+1)
+				if traceFar && rng.IntN(3) == 0 {
+					p[i] = farCoord()
+				}
 			}
 			return p
 		}
@@ -156,14 +235,19 @@ func recordIndexTrace(out *core.Out, args []string, seed int64, sum *core.Summar
 				return
 			}
 			// a vp-tree of the same bag
-			vs := make([]vptree.Comparable, len(bag))
-			for i, p := range bag {
-				vs[i] = vk.point(toFloats(p), i)
-			}
-			vt, err := vptree.New(vs, []int{0, 3, 10}[rng.IntN(3)], rand.NewPCG(uint64(seed), uint64(run)))
-			if err != nil {
-				sum.Fail("spatial:vptree.New:error", err.Error(), nil)
-				return
+			withVp := !traceFar || maxLev == 1
+			var vt *vptree.Tree
+			if withVp {
+				vs := make([]vptree.Comparable, len(bag))
+				for i, p := range bag {
+					vs[i] = vk.point(toFloats(p), i)
+				}
+				var err error
+				vt, err = vptree.New(vs, []int{0, 3, 10}[rng.IntN(3)], rand.NewPCG(uint64(seed), uint64(run)))
+				if err != nil {
+					sum.Fail("spatial:vptree.New:error", err.Error(), nil)
+					return
+				}
 			}
 			for i := 0; i < nq; i++ {
 				var q []int
@@ -183,6 +267,9 @@ func recordIndexTrace(out *core.Out, args []string, seed int64, sum *core.Summar
 					q = make([]int, dim)
 					for j := range q {
 						q[j] = []int{-300, 500}[rng.IntN(2)]
+						if traceFar {
+							q[j] = farCoord()
+						}
 					}
 					q[rng.IntN(dim)] = rng.IntN(2*span + 1)
 				default:
@@ -191,6 +278,10 @@ func recordIndexTrace(out *core.Out, args []string, seed int64, sum *core.Summar
 				qp := kk.point(toFloats(q), -1)
 				k := []int{1, 2, 3, 10, 50}[rng.IntN(5)]
 				r2 := []int{0, 1, 4, 5, 8, 16, 36}[rng.IntN(7)]
+				if traceFar && rng.IntN(2) == 0 {
+					// 2^1000, 4 2^1000, 5 2^1000, 9 2^1000, +Inf
+					r2 = []int{4096 + 1, 4096 + 4, 4096 + 5, 4096 + 9, 8192}[rng.IntN(5)]
+				}
 				// kdtree
 				{
 					e := blank("query")
@@ -209,7 +300,7 @@ func recordIndexTrace(out *core.Out, args []string, seed int64, sum *core.Summar
 					out.Emit(e)
 					e = blank("query")
 					e.Impl, e.Kind, e.Q, e.R = "kd", "within", q, r2
-					dk := kdtree.NewDistKeeper(float64(r2))
+					dk := kdtree.NewDistKeeper(radius2(r2))
 					t.NearestSet(dk, qp)
 					e.Res, e.Cd = kdRes(kk, dk.Heap)
 					out.Emit(e)
@@ -219,7 +310,7 @@ func recordIndexTrace(out *core.Out, args []string, seed int64, sum *core.Summar
 					out.Emit(c)
 				}
 				// vptree (distances are Euclidean there; only the returned points are logged)
-				{
+				if withVp {
 					vq := vk.point(toFloats(q), -1)
 					e := blank("query")
 					e.Impl, e.Kind, e.Q = "vp", "nearest", q
@@ -234,12 +325,12 @@ func recordIndexTrace(out *core.Out, args []string, seed int64, sum *core.Summar
 					vt.NearestSet(nk, vq)
 					e.Res = vpRes(vk, nk.Heap)
 					out.Emit(e)
-					if isSquare(r2) {
+					if isSquare(r2 % 4096) {
 						// integer radius: exact in floating point (the inexact-radius
 						// boundary behaviour of vptree is judged in the spec->code direction)
 						e = blank("query")
 						e.Impl, e.Kind, e.Q, e.R = "vp", "within", q, r2
-						dk := vptree.NewDistKeeper(math.Sqrt(float64(r2)))
+						dk := vptree.NewDistKeeper(math.Sqrt(radius2(r2)))
 						vt.NearestSet(dk, vq)
 						e.Res = vpRes(vk, dk.Heap)
 						out.Emit(e)
